@@ -5,6 +5,7 @@ use mcmc_sim::sim::{ClockProfile, Sched, SimConfig};
 use serde_json::{json, Value};
 
 pub mod c01;
+pub mod c02;
 pub mod c05;
 pub mod c07;
 pub mod c08;
@@ -15,7 +16,7 @@ pub mod c16;
 pub mod c17;
 
 pub fn all() -> Vec<PropertyDef> {
-    vec![c01::def(), c05::def(), c07::def(), c08::def(), c09::def(), c10::def(), c13::def(), c16::def(), c17::def()]
+    vec![c01::def(), c02::def(), c05::def(), c07::def(), c08::def(), c09::def(), c10::def(), c13::def(), c16::def(), c17::def()]
 }
 
 // ---- shared: simulation parameters <-> JSON ---------------------------------------------------
